@@ -258,6 +258,7 @@ func runInitProbe() {
 }
 
 var strGlobal = map[string]*Term{}
+var strByTerm = map[int]string{}
 
 func strConstGlobal(s string) *Term {
 	if s == "" {
@@ -268,6 +269,7 @@ func strConstGlobal(s string) *Term {
 	}
 	t := Var(fmt.Sprintf("str$c%d_%s", len(strGlobal), sanitize(trunc(s, 12))), SStr)
 	strGlobal[s] = t
+	strByTerm[t.id] = s
 	return t
 }
 
